@@ -328,6 +328,43 @@ impl Ksf for HKsf {
     }
 }
 
+/// A zero-sized stretching function that is NOT the identity (it reverses its input), for suites whose DEFAULT
+/// instance matters: `~` (absent, i.e. `CS::Ksf::default()`) and `D` (explicit default) are its only tokens.
+#[derive(Default)]
+pub struct ZKsf;
+
+impl Ksf for ZKsf {
+    fn hash<L: ArrayLength<u8>>(
+        &self,
+        input: GenericArray<u8, L>,
+    ) -> Result<GenericArray<u8, L>, InternalError> {
+        let inp = input.to_vec();
+        let mut v = input;
+        v.reverse();
+        KSFLOG.with(|l| l.borrow_mut().push((inp, Some(v.to_vec()))));
+        Ok(v)
+    }
+}
+
+/// ksf token -> instance, per stretching-function type of the suite
+pub trait KsfTok: Sized {
+    fn parse(t: &str) -> R<Option<Self>>;
+}
+impl KsfTok for HKsf {
+    fn parse(t: &str) -> R<Option<Self>> {
+        ksf(t)
+    }
+}
+impl KsfTok for ZKsf {
+    fn parse(t: &str) -> R<Option<Self>> {
+        match t {
+            "~" => Ok(None),
+            "D" => Ok(Some(ZKsf)),
+            _ => bad("suites with the zero-sized stretching function take the ksf tokens ~ and D only"),
+        }
+    }
+}
+
 fn ksf(t: &str) -> R<Option<HKsf>> {
     Ok(Some(match t {
         "~" => return Ok(None),
@@ -537,6 +574,9 @@ fn serde_dec_op<T: Obj>(f: Fmt, b: &[u8]) -> Outs {
 
 macro_rules! suite {
     ($name:ident, $oprf:ty, $ke:ty) => {
+        suite!($name, $oprf, $ke, HKsf);
+    };
+    ($name:ident, $oprf:ty, $ke:ty, $ksf:ty) => {
         pub mod $name {
             use super::*;
 
@@ -545,7 +585,7 @@ macro_rules! suite {
                 type OprfCs = $oprf;
                 type KeGroup = $ke;
                 type KeyExchange = TripleDh;
-                type Ksf = HKsf;
+                type Ksf = $ksf;
             }
             type KG = $ke;
             type OG = <$oprf as voprf::CipherSuite>::Group;
@@ -605,7 +645,7 @@ macro_rules! suite {
                 let mut rng = tape(a[2])?;
                 let (pw, cred) = (bytes(a[3])?, bytes(a[4])?);
                 let (ctx, idu, idsv) = (obytes(a[5])?, obytes(a[6])?, obytes(a[7])?);
-                let k = ksf(a[8])?;
+                let k = <$ksf as KsfTok>::parse(a[8])?;
                 let on = |bit: u32| (mask >> bit) & 1 == 1;
                 let idn = ids(&idu, &idsv);
                 let sparams = || ServerLoginStartParameters {
@@ -701,7 +741,7 @@ macro_rules! suite {
                 let mut rng = tape(a[2])?;
                 let (pw, cred) = (bytes(a[3])?, bytes(a[4])?);
                 let (ctx, idu, idsv) = (obytes(a[5])?, obytes(a[6])?, obytes(a[7])?);
-                let k = ksf(a[8])?;
+                let k = <$ksf as KsfTok>::parse(a[8])?;
                 let idn = ids(&idu, &idsv);
                 let e = |r: Result<Vec<u8>, String>| r.map(|b| hx(&b)).map_err(Fail::Err);
                 let setup = ServerSetup::<CS>::new(&mut rng);
@@ -762,7 +802,7 @@ macro_rules! suite {
                         let mut rng = tape(a[1])?;
                         let pw = bytes(a[2])?;
                         let resp: RegistrationResponse<CS> = arg(4, a[3])?;
-                        let (idu, idsv, k) = (obytes(a[4])?, obytes(a[5])?, ksf(a[6])?);
+                        let (idu, idsv, k) = (obytes(a[4])?, obytes(a[5])?, <$ksf as KsfTok>::parse(a[6])?);
                         let params =
                             ClientRegistrationFinishParameters::<CS>::new(ids(&idu, &idsv), k.as_ref());
                         let r = lib(state.finish(&mut rng, &pw, resp, params))?;
@@ -793,7 +833,7 @@ macro_rules! suite {
                         let pw = bytes(a[1])?;
                         let resp: CredentialResponse<CS> = arg(3, a[2])?;
                         let (ctx, idu, idsv) = (obytes(a[3])?, obytes(a[4])?, obytes(a[5])?);
-                        let k = ksf(a[6])?;
+                        let k = <$ksf as KsfTok>::parse(a[6])?;
                         let params = ClientLoginFinishParameters::<CS>::new(
                             ctx.as_deref(),
                             ids(&idu, &idsv),
@@ -941,8 +981,8 @@ macro_rules! suite {
 }
 
 macro_rules! suites {
-    ($( $tok:literal $name:ident $oprf:ty, $ke:ty; )*) => {
-        $( suite!($name, $oprf, $ke); )*
+    ($( $tok:literal $name:ident $oprf:ty, $ke:ty $(, $ksf:ty)?; )*) => {
+        $( suite!($name, $oprf, $ke $(, $ksf)?); )*
         fn route(suite: &str, op: &str, a: &[&str]) -> Outs {
             match suite {
                 $( $tok => $name::handle(op, a), )*
@@ -968,6 +1008,8 @@ suites! {
     "P384/P521" p384_p521 P384, P521; "P384/X25519" p384_x P384, KX;
     "P521/R255" p521_r255 P521, KR;   "P521/P256" p521_p256 P521, P256; "P521/P384" p521_p384 P521, P384;
     "P521/P521" p521_p521 P521, P521; "P521/X25519" p521_x P521, KX;
+    // the same groups with a zero-sized, non-identity DEFAULT stretching function (PROTOCOL.md)
+    "R255/R255+z" r255_r255_z OR, KR, ZKsf; "P256/P256+z" p256_p256_z P256, P256, ZKsf; "P384/X25519+z" p384_x_z P384, KX, ZKsf;
 }
 
 // ---------------------------------------------------------------------------------------------
